@@ -241,8 +241,9 @@ def o5(h, st):
     from tangelo.problem_decomposition.dmet import Localization
     from tangelo.algorithms.classical import FCISolver, CCSDSolver
     if st["mol"] == "H4ring":
-        r = 1.0
-        xyz = [("H", (r * math.cos(k * math.pi / 2), r * math.sin(k * math.pi / 2), 0.0)) for k in range(4)]
+        # a generic (symmetry-free) H4: square H4 has degenerate frontier orbitals (its SCF solution jumps with tiny perturbations) and in
+        # a rectangle the bath of a two-atom fragment is rank deficient, so that fragment + bath does not span the whole space
+        xyz = [("H", (0.0, 0.0, 0.0)), ("H", (0.1, 0.2, 0.8)), ("H", (1.3, 0.1, 1.0)), ("H", (1.5, -0.6, 2.1))]
     else:
         xyz = [("H", (0.0, 0.0, 0.9 * k)) for k in range(4)]
     mol = SecondQuantizedMolecule(xyz, 0, 0, basis="minao")
@@ -253,7 +254,7 @@ def o5(h, st):
     e = h.call(DM, "DMETProblemDecomposition.simulate", d)
     defect = h.call(DM, "DMETProblemDecomposition._oneshot_loop", d, d.chemical_potential)
     h.check("fragment electron numbers sum to the total at convergence", abs(defect) < 1e-4, detail=f"electron number defect {defect}")
-    if len(st["frags"]) == 1 or (st["frags"] == [2, 2] and st["mol"] == "H4ring" and st["solver"] == "fci"):
+    if len(st["frags"]) == 1 or (st["frags"] == [2, 2] and st["solver"] == "fci"):
         # one fragment, or two fragments whose fragment + bath spaces each span the whole orbital space
         ref = (FCISolver(mol) if st["solver"] == "fci" else CCSDSolver(mol)).simulate()
         h.check("single fragment spanning the molecule reproduces the exact solver", abs(e - ref) < 1e-5, detail=f"{e} vs {ref}")
